@@ -74,7 +74,7 @@ PROPS = {
         'level': 'proof',
         'explanation': 'Follow::{follow_at_depth, metadata (all four branches), root_metadata, metadata_at_depth} return exactly rec_for(mode, depth, path): lstat under -P, stat falling back to lstat for a dangling link under -L, stat for starting points only under -H; -type/-perm/-inum/-links/-uid/-gid/-empty read the record the follow mode selects, -xtype the opposite one, -lname is false unless that record is a symbolic link; -perm MODE/-MODE//MODE are the three bit-mask conditions of the statement over the twelve permission bits; none of these tests touches MatcherIO.',
         'assumptions': ['POSIX relations between stat() and lstat() (never a symlink from stat; equal on non-links; lstat failure implies the same stat failure)',
-                        'WalkEntry::{metadata, file_type, path_is_symlink} (OnceCell/closure code) return the record rec_for(entry.follow(), path) resp. its type: assumed, together with walkdir DirEntry::{metadata, file_type} agreeing with the follow mode the walker was configured with (the configuration itself is an obligation of unit walk)',
+                        'WalkEntry::{get_metadata, metadata, file_type, path_is_symlink} are under contract in unit entry2 (bodies verbatim; the get_or_init closure keeps its body and gets an `ensures` from a rule): the record is what the cache holds, else Follow::metadata_at_depth(path, depth) for an explicit entry and walkdir DirEntry::metadata() for one of walkdir\'s; from_walkdir starts every yielded entry with an empty cache and makes exactly the depth-0 entry under -H/-L explicit. Still assumed: OnceCell::get_or_init (the held value, else the closure\'s), walkdir DirEntry::{metadata, file_type, path_is_symlink} agreeing with the follow mode the walker was configured with (the configuration itself is an obligation of unit walk), and that unit entry\'s interface (entry_iface.rs: metadata() == rec_for(follow, depth, path)) is the composition of the two',
                         'uucore::mode::parse_numeric / parse_symbolic (so that symbolic and octal spellings agree is assumed, not proved)', 'nix user/group lookup for -user/-group/-nouser/-nogroup', 'uucore FileInformation for -samefile'],
         'not_decided': ['-samefile, -nouser, -nogroup: dependency calls only, no contract within reach', 'symbolic == octal mode spelling (uucore)'],
     },
@@ -88,12 +88,12 @@ PROPS = {
     },
     'C16': {
         'level': 'other',
-        'explanation': 'FormatStringParser (every function, bodies verbatim after R5/R9/R11) parses exactly what the reference parser fparse() of the statement prescribes (escape table incl. \\NNN, %%, blank/- flags, minimum width, the thirty directive letters, time conversions), errs exactly on the invalid formats, never panics and terminates; Printf::print writes literals verbatim and each directive value padded with blanks to the minimum width on the left by default and on the right with -, never truncated, nothing appended, stopping at a directive that fails; the value arms %d %s %n %i %m %p %y %Y of format_directive, cut out of the real match arm by arm, print the decimal field / twelve permission bits / the -print text / the -type resp. -xtype letter of the record the follow mode selects.',
+        'explanation': 'FormatStringParser (every function, bodies verbatim after R5/R9/R11) parses exactly what the reference parser fparse() of the statement prescribes (escape table incl. \\NNN, %%, blank/- flags, minimum width, the thirty directive letters, time conversions), errs exactly on the invalid formats, never panics and terminates; Printf::print writes literals verbatim and each directive value padded with blanks to the minimum width on the left by default and on the right with -, never truncated, nothing appended, stopping at a directive that fails; the value arms %d %s %n %i %U %G %m %p %l %y %Y of format_directive, cut out of the real match arm by arm, print the decimal field / twelve permission bits / the -print text / the link target when the entry itself is a link and nothing otherwise / the -type resp. -xtype letter of the record the follow mode selects.',
         'assumptions': ['std::fmt: Display of integers is decimal, {:>03o} is zero-padded octal, {:<w$}/{:>w$} pad a str with blanks to w chars and never truncate (R4)',
                         'UTF-8 theory of R11 (char widths 1..4, 1 for ASCII); str::{find, get, slicing}, char::from_u32, u32::from_str_radix, str::parse::<usize> as specified in the unit',
                         'chrono StrftimeItems validity of a time conversion character is an uninterpreted predicate (same on both sides)',
                         'WalkEntry::{metadata, file_type, follow, path_is_symlink, depth, path} as in unit entry'],
-        'not_decided': ['%f %h %H %P (std::path component algebra; the statement\'s "%H as given" and "%H/%P recompose %p" conflict for a starting point spelled dir/)', 'time directives (chrono), %u %g (name lookup), %b %k %S %D %F %l %M', 'an unknown directive letter %X is rendered as X (the statement is silent)'],
+        'not_decided': ['%f %h %H %P (std::path component algebra; the statement\'s "%H as given" and "%H/%P recompose %p" conflict for a starting point spelled dir/)', 'time directives (chrono), %u %g (name lookup), %b %k %S %D %F %M', 'an unknown directive letter %X is rendered as X (the statement is silent)'],
     },
     'C11': {
         'level': 'other',
